@@ -31,7 +31,7 @@ ASSUMPTIONS = [
 TRUSTED = ["tools/vlib/treegen.py (schema/instance generator, YANG renderer)", "harness/treeproto.h (tree loader and canonical dump)"]
 
 LAW_OK = {"diff": "Success", "selfA": "empty", "selfB": "empty", "pureA": "1", "pureB": "1", "apply": "Success", "pureD": "1",
-          "cmp": "1", "xml": "ok", "json": "ok", "lyb": "ok", "reval": "ok"}
+          "cmp": "1", "xml": "ok", "json": "ok", "lyb": "ok", "reval": "ok", "npstale": "0"}
 LAW_TEXT = {
     "diff": "computing the diff fails",
     "selfA": "the diff of a tree with itself is not empty", "selfB": "the diff of a tree with itself is not empty",
@@ -40,6 +40,7 @@ LAW_TEXT = {
     "pureD": "applying the diff modified the diff",
     "cmp": "apply(A, diff(A,B)) is not equal to B (lyd_compare_siblings)",
     "reval": "re-validation of apply(A, diff(A,B)) fails",
+    "npstale": "apply(A, diff(A,B)) has a non-presence container still flagged default above an explicit node (dropped by LYD_PRINT_WD_TRIM)",
     "xml": "diff printed as XML, parsed back after A and B were freed, does not take A to B",
     "json": "diff printed as JSON, parsed back after A and B were freed, does not take A to B",
     "lyb": "diff printed as LYB, parsed back after A and B were freed, does not take A to B",
@@ -116,6 +117,8 @@ def features(s, A, B, D, o):
             od = meta(n, "orig-default")
             if od is not None and (od == b"true") != bool(n.flags & tg.F_DFLT):
                 f.add("uo-move-with-dflt-change")                                                    # F50
+        if sn.is_term() and own == b"none" and meta(n, "orig-default") == b"true" and not (n.flags & tg.F_DFLT):
+            f.add("dflt-cleared-by-none")                                                            # F54
         if sn.kind == "list" and not sn.keys and op == "none":
             f.add("op-below-keyless-instance")                                                       # F51
         if sn.dup_inst() and own in (b"replace", b"delete") and sn.sid in dup_sids:
@@ -159,6 +162,8 @@ def classify(component, what, case):
         return "F52"
     if law in ("apply", "cmp", "xml", "json", "lyb") and "dupinst-duplicate-touched" in feat:
         return "F53"
+    if law == "npstale" and "dflt-cleared-by-none" in feat:
+        return "F54"
     if law in ("ptr", "cmp", "apply") and "diff-pointer-not-first" in feat:
         return "F58"
     if law in ("cmp", "xml", "json", "lyb") and verdict in ("0", "differs") and "create-next-to-default-instances" in feat and not case.get("opts"):
@@ -254,7 +259,7 @@ def run(cx):
             "whose diff is not empty or whose reply is a distinct error")
     rng = cx.sub_rng("schemas")
     nsch = cx.n(34, 140)
-    per = cx.n(70, 700)
+    per = cx.n(64, 700)
     schemas = [tg.gen_schema(rng, i, max_depth=rng.choice([2, 3, 3])) for i in range(nsch)]
     corpus_cases = load_corpus(cx)
     cases = []
@@ -413,7 +418,7 @@ def eval_law(cx, c, o, reply):
     if v.get("ptr", "0") != "0":
         c.feat[o] = sorted(set(c.feat.get(o, [])) | {"diff-pointer-not-first"})                      # F58
         cx.fail(COMP, "lyd_diff_siblings returns a node that is not the first sibling of the diff", case_payload(c, o, "ptr", v["ptr"]))
-    for k in ("diff", "selfA", "selfB", "pureA", "pureB", "apply", "pureD", "reval", "cmp", "xml", "json", "lyb"):
+    for k in ("diff", "selfA", "selfB", "pureA", "pureB", "apply", "pureD", "reval", "cmp", "npstale", "xml", "json", "lyb"):
         if k in v and v[k] != LAW_OK[k]:
             if k in ("xml", "json", "lyb") and v.get("apply") == "Success" and v.get("cmp") == "0" and v[k] == "differs":
                 continue        # the same failure as the direct route, reported there
@@ -432,7 +437,7 @@ def exhaustive(cx):
             # the nested placement only for a sample in the big runs: the algorithm does not depend on the level
             for ia, x in enumerate(seqs):
                 for ib, y in enumerate(seqs):
-                    if not nested or len(seqs) <= 70 or (ia * 7 + ib) % 5 == 0:
+                    if not nested or len(seqs) <= 20 or (ia * 7 + ib) % cx.n(4, 5) == 0:
                         cases.append(Case(s, tree(x, nested), tree(y, nested), "userord-" + kind))
         total += len(cases)
         for lo in range(0, len(cases), 6000):
